@@ -566,11 +566,11 @@ theorem decode_canonical (a : Bytes) (P : G1Pt) (hwf : WF a) (h : decodeG1c a = 
                   simp only [encodeG1c]
                   rw [hbe]
                   simp only [hsg]
-                  show (b0 % 32 + 128 + if (b0 / 32 % 2 == 1) = true then 32 else 0) :: t = b0 :: t
-                  congr 1
-                  by_cases hf : b0 / 32 % 2 = 1
-                  · simp [hf]; omega
-                  · simp [hf]; omega
+                  have hb : (b0 % 32 + 128 + if (b0 / 32 % 2 == 1) = true then 32 else 0) = b0 := by
+                    by_cases hf : b0 / 32 % 2 = 1
+                    · simp [hf]; omega
+                    · simp [hf]; omega
+                  rw [hb]
                 · right
                   exact ⟨_, by rw [hy0]⟩
 
